@@ -38,8 +38,8 @@ PROPS = {
     },
     "C02": {
         "engine": "A+B+C", "level": "exploration",
-        "tiers": {"quick": {"batches": 16, "runs": 200, "budget_s": 50, "floor_runs": 800},
-                  "thorough": {"batches": 64, "runs": 2500, "budget_s": 550, "floor_runs": 30000}},
+        "tiers": {"quick": {"batches": 16, "runs": 120, "budget_s": 70, "floor_runs": 800},
+                  "thorough": {"batches": 64, "runs": 2000, "budget_s": 800, "floor_runs": 30000}},
         "rule": "one run = a HUGR with a history: (i) an engine-B builder product, (ii) an engine-A client history (add/delete/insert, metadata from everything JSON carries, ops with type parameters, extension deltas, descriptions, type args), or (iii) an engine-B product mutated by engine-A clients (delete leaves, reuse freed indices, add/delete links, insert); then to_json -> load_json in the same process or, in a quarter of the runs, in a reader node started as a separate interpreter with another PYTHONHASHSEED; clauses: load-succeeds, doc-fixpoint, op-encoding, hierarchy with child order, metadata, link multiset incl. order links; non-trivial = >= 3 calls; distinct = distinct event-log digests", "real": ["Hugr.to_json / load_json, _serialization models (pydantic), ops/tys/val codecs, graph store, builders", "the reader node is a real second interpreter (fresh module state, different PYTHONHASHSEED)"], "stub": ["the storage between writer and reader is a pipe owned by the simulator (no storage faults have an oracle for this property)"], "expected_probes": ["serialised_after_deletion", "serialised_after_index_reuse", "non_contiguous_indices", "index_order_not_hierarchy_consistent", "restart_read"], "technique": "seeded build + mutation histories, then a write / restart / read cycle: the reader is a fresh interpreter with a different hash seed and only the document crosses; observation-equality oracle clause by clause", "level_text": "The HUGRs the statement quantifies over are reachable only through histories (deletion, index reuse, interleaved builders), and the second party of a round trip is another process: the check generates the histories with engines A and B and reads the document back both in-process and in a restarted interpreter with a different hash seed, comparing the loaded HUGR's public observation and re-serialised document with the original's.", "level_note": "Trusted: the correspondence rule in engines/c_persist.py (root to root, k-th child to k-th child; where increasing index is hierarchy-consistent it must be the order-preserving renumbering the statement licenses). Order links of the original (offset -1) are compared at the order-port offset refsem predicts. NaN/inf metadata excluded (not JSON). Engine-A order links only on ops that have an order port.",
     },
     "C03": {
